@@ -248,8 +248,8 @@ def check(ctx, rep):
                             held = bool(cs) and _callers_hold_lock(ctx, fi, cs)
                         rep.ob("R-GUARDED", "%s: descriptor list changed under the executor lock" % fi.qualname, held, "descriptor list changed without the executor lock: the poll thread's snapshot may miss or duplicate entries", where_of(fi, e.node), trace_of(p, e.seq))
     rep.count("mutations of the descriptor list", ng, 2)
-    from ..roles import rebuild_rule
-    rebuild_rule(ctx, rep, pex, DF, "R-GUARDED", "the list of polled entries")
+    from ..roles import shrink_rule
+    shrink_rule(ctx, rep, pex, DF, "R-GUARDED", "the list of polled entries")
 
     # ---- R-REGISTER: the delegate callback
     ps, it = ctx.paths(dcb, pf, depth=DEPTH, inline=std_inline)
